@@ -230,7 +230,9 @@ impl C13 {
         for k in 0..pts.len() - 1 {
             let (a, b) = (pts[k], pts[k + 1]);
             let (lo, hi) = if a.0 == b.0 { ((a.0 - h, a.1.min(b.1)), (a.0 + h, a.1.max(b.1))) } else { ((a.0.min(b.0), a.1 - h), (a.0.max(b.0), a.1 + h)) };
-            if geom::in_closed_rect(q, lo, hi) {
+            // a repeated point (zero-length segment) has no direction: it fixes nothing to true, but points
+            // farther than w/2 from it and from every other segment are still outside
+            if a != b && geom::in_closed_rect(q, lo, hi) {
                 must_true = true;
             }
             if !geom::farther_than_half(q, a, b, w) {
@@ -282,9 +284,14 @@ impl C13 {
                 let last = *p.last().unwrap();
                 for i in 0..(g * g) as usize {
                     let n = at(i);
-                    if n != last && (n.0 == last.0 || n.1 == last.1) {
+                    // a point may be listed twice in a row, once per path (repeated end point or corner)
+                    let repeat_ok = n == last && !p.windows(2).any(|w| w[0] == w[1]);
+                    if (n != last && (n.0 == last.0 || n.1 == last.1)) || repeat_ok {
                         let mut q = p.clone();
                         q.push(n);
+                        if repeat_ok {
+                            cx.tag("path-repeated-point");
+                        }
                         stack.push(q);
                     }
                 }
@@ -372,7 +379,7 @@ impl Driver for C13 {
         let (g, l) = tier.pick((4, 5), (5, 5));
         Describe {
             rule: format!(
-                "rectangles: every ordered pair of corner points on a 5x5 grid x every point of the 7x7 grid; polygons: every sequence of 3..={l} distinct vertices on a {g}x{g} grid that is a simple polygon (all orientations, start vertices, collinear vertices){} and each of them again with one consecutive repeated vertex at every position, x every point of the (g+2)^2 grid; Manhattan paths: every sequence of 2..=4 points on a 5x5 grid with axis-parallel non-empty segments x width 0..=4 x every point of the 9x9 grid. A state is one shape (enumeration is duplicate-free by construction); a polygon is non-trivial when some non-boundary grid point has its rightward ray passing through a polygon vertex. Oracle: exact integer geometry (boundary by zero cross product, winding number with half-open rule, cross-checked against an independent crossing-number implementation at start-up).",
+                "rectangles: every ordered pair of corner points on a 5x5 grid x every point of the 7x7 grid; polygons: every sequence of 3..={l} distinct vertices on a {g}x{g} grid that is a simple polygon (all orientations, start vertices, collinear vertices){} and each of them again with one consecutive repeated vertex at every position, x every point of the (g+2)^2 grid; Manhattan paths: every sequence of 2..=4 points on a 5x5 grid with axis-parallel non-empty segments, and each of up to 3 points again with one point listed twice in a row at any position (a zero-length segment, which fixes no point to true), x width 0..=4 x every point of the 9x9 grid. A state is one shape (enumeration is duplicate-free by construction); a polygon is non-trivial when some non-boundary grid point has its rightward ray passing through a polygon vertex. Oracle: exact integer geometry (boundary by zero cross product, winding number with half-open rule, cross-checked against an independent crossing-number implementation at start-up).",
                 if tier.is_thorough() { ", plus every 6-vertex simple polygon on the 5x5 grid" } else { "" }
             ),
             assumptions: vec![
@@ -491,7 +498,7 @@ impl Driver for C13 {
         }
     }
     fn guards(&self, tier: Tier, stats: &Stats, _distinct: u64) -> Result<(), String> {
-        require_tags(stats, &["query-inside", "query-boundary", "query-outside", "polygons", "rects", "paths", "path-must-true", "path-must-false", "path-dont-care"])?;
+        require_tags(stats, &["query-inside", "query-boundary", "query-outside", "polygons", "rects", "paths", "path-must-true", "path-must-false", "path-dont-care", "path-repeated-point"])?;
         if tier.is_thorough() {
             require_tags(stats, &["supplement"])?;
         }
